@@ -1461,7 +1461,7 @@ ALL += C19_HELPERS + [C19_EXAMINE]
 # A path built with os.path.join is the step (i, j) / the iteration index i it names.
 _NOW = "(tree_after output_dir' acts')"
 _STEP = dict(
-    _C19, pyparams=["output_dir", "input_screen", "extra_args", "batch_size"],
+    _C19, imports="Model.Orchestrate Generated.SrcOrchCmd", pyparams=["output_dir", "input_screen", "extra_args", "batch_size"],
     params=[("output_dir", "fs"), ("input_screen", "spath"), ("extra_args", "eargs"), ("batch_size", "Z")],      # extra_args is only handed on
     returns="bool", return_state=["acts'"], predefine={"acts": "[]"}, tail_dup=True,
     vars={"acts": "list action", "experiment_name": "ename", "_": "ename",
@@ -1482,28 +1482,37 @@ _STEP = dict(
         ("get_selected_plates(os.path.join(output_dir, f'iter_{__i}'))", "!src_get_selected_plates (%s, {i})" % _NOW, "opt list Z", {"i": "Z"}),
         ("get_test_screen_from_job_output(__d)", "!src_get_test_screen_from_job_output (%s, {d})" % _NOW, "opt spath", {"d": "step"}),
         ("get_theta_and_dist_chunks(__d)", "!src_get_theta_and_dist_chunks acts' (%s, {d})" % _NOW, "step", {"d": "step"}),
+        # the dict get_theta_and_dist_chunks returns is the directory it names; its two entries are the glob patterns under it
+        ("__t['thetas']", "TGlob {t}", "tglob", {"t": "step"}),
+        ("__t['dist_chunks']", "DGlob {t}", "dglob", {"t": "step"}),
     ],
     effects=[
         ("shutil.rmtree(job_output_dir, ignore_errors=True)", "acts'", "{state} ++ [ARmTree job_output_dir']"),
         # makedirs creates one directory per missing path component
         ("os.makedirs(job_output_dir, exist_ok=True)", "acts'", "{state} ++ [AMkIter (fst job_output_dir'); AMkPlate job_output_dir']"),
-        ("run_initial_plate(output_dir=__o, screen=__s, experiment_name=experiment_name, extra_args=extra_args)",
-         "acts'", "!launch_cmd {state} {o} (Some (LInit {s}))"),
-        ("run_first_batch_plate(output_dir=__o, training_screen=__t, test_screen=__s, experiment_name=experiment_name, "
-         "extra_args=extra_args)", "acts'", "!launch_cmd {state} {o} (first_cmd {t} {s})"),
-        ("run_first_prospective_batch_plate(output_dir=__o, screen=__s, experiment_name=experiment_name, extra_args=extra_args)",
-         "acts'", "!launch_cmd {state} {o} (Some (LProsp {s}))"),
+    ],
+    # the callees are the TRANSLATED command builders (C19_RUN_* at the end of this file, Generated/SrcOrchCmd.v): which keyword
+    # gets which value is read from the call site, every argument is coerced to the builder's parameter type (a screen path
+    # that cannot be None becomes Some); Proofs/C19SourceCmd.v proves each builder equal to the launch it denotes
+    typed_effects=[
+        ("run_initial_plate(output_dir=__o, screen=__s, experiment_name=__n, extra_args=__e)",
+         "acts'", "!src_run_initial_plate {state} {o} {s} {n} {e}", {"o": "step", "s": "opt spath", "n": "ename", "e": "eargs"}),
+        ("run_first_batch_plate(output_dir=__o, training_screen=__t, test_screen=__s, experiment_name=__n, extra_args=__e)",
+         "acts'", "!src_run_first_batch_plate {state} {o} {t} {s} {n} {e}",
+         {"o": "step", "t": "opt spath", "s": "opt spath", "n": "ename", "e": "eargs"}),
+        ("run_first_prospective_batch_plate(output_dir=__o, screen=__s, experiment_name=__n, extra_args=__e)",
+         "acts'", "!src_run_first_prospective_batch_plate {state} {o} {s} {n} {e}",
+         {"o": "step", "s": "opt spath", "n": "ename", "e": "eargs"}),
+        ("run_subsequent_batch_plate(output_dir=__o, screen=__s, experiment_name=__n, extra_args=__e, thetas=__t, dist_chunks=__d, "
+         "excludes=__x)", "acts'", "!src_run_subsequent_batch_plate {state} {o} {s} {t} {d} {n} {e} {x}",
+         {"o": "step", "s": "opt spath", "n": "ename", "e": "eargs", "t": "tglob", "d": "dglob", "x": "opt list Z"}),
     ],
     # creation of the output directory itself is not modelled (Orchestrate.v header)
     ignore=["logger.info(__a)", "os.makedirs(output_dir, exist_ok=True)"],
     raises=[("Could not find test screen in {first_output_dir}", "SRaised {acts} 1")],
 )
-_RUN_NEXT = ("run_subsequent_batch_plate(output_dir=__o, screen=__s, experiment_name=experiment_name, extra_args=extra_args, "
-             "thetas=__t['thetas'], dist_chunks=__t['dist_chunks'], excludes=__x)")
-C19_RETRO = dict(_STEP, func="run_next_retrospective_step", name="src_run_next_retrospective_step",
-                 effects=_STEP["effects"] + [(_RUN_NEXT, "acts'", "!launch_cmd {state} {o} (next_cmd {s} {t} {x})")])         # screen=current_screen: Optional
-C19_PROSP = dict(_STEP, func="run_next_prospective_step", name="src_run_next_prospective_step",
-                 effects=_STEP["effects"] + [(_RUN_NEXT, "acts'", "!launch_cmd {state} {o} (next_cmd (Some {s}) {t} {x})")])  # screen=input_screen
+C19_RETRO = dict(_STEP, func="run_next_retrospective_step", name="src_run_next_retrospective_step")
+C19_PROSP = dict(_STEP, func="run_next_prospective_step", name="src_run_next_prospective_step")
 ALL += [C19_RETRO, C19_PROSP]
 # ---- C18: the randomised steps as resumption programs (Model/RandProg.v).  The translator's monad is `rprog`
 # (prog req ans (result T)): a primitive whose template contains a request is a call on the function's OWN generator argument
@@ -3124,3 +3133,54 @@ C19_MAIN = dict(
     raises=[("Unknown mode", "MEnd IRaised w")],                                 # ValueError before any call: the world is untouched
 )
 ALL += [C19_MAIN]
+
+# ---- C19, continued: the four run_* command builders (vocabulary: end of Model/Orchestrate.v; proofs: Proofs/C19SourceCmd.v).
+# A command line is `list (option word)`: every item of the list literal is coerced to `opt word` (a literal / get_main_nf_file() /
+# the work directory are words; a screen path argument may be None; output_dir, experiment_name, the two glob patterns are
+# words by their type).  `acts` (no variable of the source) is the list of file-system actions of the calling run_next_* so far;
+# the builder returns it extended by the launch, or raises after it.
+def _lit(s):
+    assert all(c.isalnum() or c in "_-=" for c in s), s
+    return (repr(s), "WLit [%s] (* %s *)" % ("; ".join(str(ord(c)) for c in s), s), "word")
+
+
+_LITERALS = ["nextflow", "run", "--mode", "retrospective", "prospective", "next_plate", "--screen", "--training_screen",
+             "--test_screen", "--name", "--outdir", "--initialize", "true", "false", "-work-dir", "--reveal", "--thetas",
+             "--distance_matrix"]
+_OW = "opt word"
+_CMD = dict(
+    file="nextflow/scripts/batchie.py", out="SrcOrchCmd.v", imports="Model.Orchestrate", monad=_SRES,
+    returns="list action", implicit_return="acts", list_elem_type=_OW,
+    coerce=[("opt spath", _OW, "option_map WScreen {x}"), ("step", _OW, "Some (WJob {x})"), ("ename", _OW, "Some (WName {x})"),
+            ("tglob", _OW, "Some (word_of_tglob {x})"), ("dglob", _OW, "Some (word_of_dglob {x})")],
+    prims=[_lit(s) for s in _LITERALS] + [
+        ("get_main_nf_file()", "WMainNf", "word"),
+        ("os.path.join(output_dir, 'work')", "WWork output_dir'", "word"),
+        ("extra_args", "map extra_word extra_args'", "list opt word"),          # the operator's extra words, opaque
+        ("'--excludes={}'.format(','.join(__x))", "WExcludes {x}", "word", {"x": "list Z"}),
+    ],
+    typed_effects=[
+        # the f-string is evaluated before the process is started: ' '.join raises TypeError on a None item
+        ("logger.info(f\"Running command: {' '.join(__c)}\")", "acts", "!join_words {state} {c}", {"c": "list opt word"}),
+        ("subprocess.check_call(__c, cwd=get_repository_root())", "acts", "!check_call {state} {c}", {"c": "list opt word"}),
+    ],
+)
+_BUILDER_PARAMS = [("acts", "list action"), ("output_dir", "step")]
+_TAIL_PARAMS = [("experiment_name", "ename"), ("extra_args", "eargs")]
+C19_RUN_INITIAL = dict(
+    _CMD, func="run_initial_plate", name="src_run_initial_plate", pyparams=["output_dir", "screen", "experiment_name", "extra_args"],
+    params=_BUILDER_PARAMS + [("screen", "opt spath")] + _TAIL_PARAMS, vars={"cmd": "list opt word"})
+C19_RUN_FIRST = dict(
+    _CMD, func="run_first_batch_plate", name="src_run_first_batch_plate",
+    pyparams=["output_dir", "training_screen", "test_screen", "experiment_name", "extra_args"],
+    params=_BUILDER_PARAMS + [("training_screen", "opt spath"), ("test_screen", "opt spath")] + _TAIL_PARAMS, vars={"cmd": "list opt word"})
+C19_RUN_FIRST_PROSP = dict(
+    _CMD, func="run_first_prospective_batch_plate", name="src_run_first_prospective_batch_plate",
+    pyparams=["output_dir", "screen", "experiment_name", "extra_args"],
+    params=_BUILDER_PARAMS + [("screen", "opt spath")] + _TAIL_PARAMS, vars={"cmd": "list opt word"})
+C19_RUN_SUBSEQUENT = dict(
+    _CMD, func="run_subsequent_batch_plate", name="src_run_subsequent_batch_plate",
+    pyparams=["output_dir", "screen", "thetas", "dist_chunks", "experiment_name", "extra_args", "excludes"], pydefaults=["None"],
+    params=_BUILDER_PARAMS + [("screen", "opt spath"), ("thetas", "tglob"), ("dist_chunks", "dglob")] + _TAIL_PARAMS
+    + [("excludes", "opt list Z")], vars={"args": "list opt word"})
+ALL += [C19_RUN_INITIAL, C19_RUN_FIRST, C19_RUN_FIRST_PROSP, C19_RUN_SUBSEQUENT]
